@@ -40,6 +40,18 @@ type State struct {
 	Locals map[*ssa.Alloc]Val
 	Heap   map[string]Term
 	Alloc  Term
+	Sym    *symHeap // non-nil: a schematic heap whose components are bound variables (opaque spec bodies)
+}
+
+type symHeap struct {
+	keys  []string
+	terms map[string]Term
+}
+
+type opaqueInfo struct {
+	name  string
+	keys  []string
+	sorts []Sort
 }
 
 func (s *State) clone() *State {
@@ -74,6 +86,10 @@ type FuncVC struct {
 	prov       map[string]provInfo
 	closures   map[*ssa.MakeClosure][]Val
 	globalRefs map[string]Term
+	globalDone map[string]bool
+	freshRefs  map[string]bool
+	keyGoType  map[string]types.Type
+	opaque     map[string]*opaqueInfo
 	inlineDepth int
 	entryState *State
 	tier string
@@ -104,6 +120,7 @@ type Frame struct {
 	calls   map[string]int
 	loopOrd map[*ssa.BasicBlock]int
 	escapes map[*ssa.Alloc]bool
+	loopHeads map[int]*State
 	results []Val // set while checking ensures
 	// current position for diagnostics
 	curInstr ssa.Instruction
@@ -136,6 +153,18 @@ func (vc *FuncVC) heapSort(key string) Sort {
 }
 
 func (vc *FuncVC) heapGet(st *State, key string, sort Sort) Term {
+	if st.Sym != nil {
+		if t, ok := st.Sym.terms[key]; ok {
+			return t
+		}
+		t := Term{fmt.Sprintf("h?%d", len(st.Sym.keys)), sort}
+		st.Sym.keys = append(st.Sym.keys, key)
+		st.Sym.terms[key] = t
+		if _, ok := vc.entrySorts[key]; !ok {
+			vc.entrySorts[key] = sort
+		}
+		return t
+	}
 	if t, ok := st.Heap[key]; ok {
 		return t
 	}
@@ -145,7 +174,54 @@ func (vc *FuncVC) heapGet(st *State, key string, sort Sort) Term {
 	t := vc.sc.DeclP(key, sort)
 	vc.entry[key] = t
 	vc.entrySorts[key] = sort
+	if f := vc.arrayTyped(key, t); !f.IsTrue() {
+		vc.sc.AssumeP(f, "memory holds well-typed values")
+	}
 	return t
+}
+
+// declHeap declares a fresh (havoc'd) heap component for key and states that
+// it holds well-typed values.
+func (vc *FuncVC) declHeap(key string, sort Sort) Term {
+	t := vc.sc.Decl(key, sort)
+	vc.sc.Assume(vc.arrayTyped(key, t), "")
+	return t
+}
+
+// arrayTyped: in int mode every integer cell of a heap component lies in the
+// range of its Go type (quantified over the component's index space).
+func (vc *FuncVC) arrayTyped(key string, t Term) Term {
+	if vc.enc.Mode != ModeInt {
+		return tTrue
+	}
+	gt, ok := vc.keyGoType[strings.TrimSuffix(key, "@")]
+	if !ok {
+		return tTrue
+	}
+	if _, _, isInt := intInfo(gt); !isInt {
+		return tTrue
+	}
+	s := t.Sort
+	var vars []string
+	cur := t
+	depth := 0
+	for s.IsArr() {
+		ix, el := s.ArrParts()
+		name := fmt.Sprintf("q?%d_%d", vc.sc.n, depth)
+		vars = append(vars, fmt.Sprintf("(%s %s)", name, ix))
+		cur = mkSelect(cur, Term{name, ix})
+		s = el
+		depth++
+	}
+	vc.sc.n++
+	if s != SInt {
+		return tTrue
+	}
+	rng := vc.enc.typeRange(cur, gt)
+	if len(vars) == 0 {
+		return rng
+	}
+	return Term{fmt.Sprintf("(forall (%s) (! %s :pattern (%s)))", strings.Join(vars, " "), rng.S, cur.S), SBool}
 }
 
 func (vc *FuncVC) heapSet(st *State, key string, t Term) {
@@ -192,7 +268,13 @@ func (vc *FuncVC) subRef(st types.Type, f int, r Term) Term {
 		tag := len(vc.subFuncs)
 		vc.extraDecls = append(vc.extraDecls, fmt.Sprintf("(define-fun tag_%s () Int %d)", name, tag))
 	}
-	t := vc.sc.Def("subref", app(SInt, name, r))
+	t := app(SInt, name, r) // canonical term: the same sub-object has the same text everywhere
+	if vc.freshRefs[r.S] {
+		vc.freshRefs[t.S] = true
+	}
+	if strings.Contains(r.S, "?") {
+		return t
+	}
 	// instantiated axioms: positive, tagged, owner recoverable
 	vc.sc.Assume(mkImplies(mkNot(mkEq(r, intLit64(0))), mkAnd(
 		app(SBool, ">", t, intLit64(0)),
@@ -207,7 +289,13 @@ func (vc *FuncVC) elemRef(base, idx Term) Term {
 	if vc.enc.Mode == ModeBV {
 		ix = app(SInt, "bv2nat", idx)
 	}
-	t := vc.sc.Def("elemref", app(SInt, "elemref", base, ix))
+	t := app(SInt, "elemref", base, ix)
+	if vc.freshRefs[base.S] {
+		vc.freshRefs[t.S] = true
+	}
+	if strings.Contains(t.S, "?") {
+		return t
+	}
 	vc.sc.Assume(mkImplies(mkNot(mkEq(base, intLit64(0))), mkAnd(
 		app(SBool, ">", t, intLit64(0)),
 		mkEq(app(SInt, "reftag", t), intLit64(-1)),
@@ -222,6 +310,7 @@ func (vc *FuncVC) loadFlat(st *State, lv *LV, t types.Type) *FV {
 	enc := vc.enc
 	ls := enc.Leaves(t)
 	fv := &FV{T: t}
+	vc.noteKeyType(lv, t)
 	for _, l := range ls {
 		var x Term
 		switch lv.Kind {
@@ -236,6 +325,7 @@ func (vc *FuncVC) loadFlat(st *State, lv *LV, t types.Type) *FV {
 			x = mkSelect(arr, lv.Ref)
 		case LGlobal:
 			x = vc.heapGet(st, "G|"+lv.Key+"|"+l.Name, l.Sort)
+			vc.globalFacts(lv.Key, t)
 		default:
 			panic("loadFlat: bad location kind")
 		}
@@ -250,6 +340,7 @@ func (vc *FuncVC) storeFlat(st *State, lv *LV, v *FV) {
 	if len(ls) != len(v.L) {
 		panic(fmt.Sprintf("storeFlat: leaf mismatch for %s", v.T))
 	}
+	vc.noteKeyType(lv, v.T)
 	for i, l := range ls {
 		switch lv.Kind {
 		case LField:
@@ -278,6 +369,29 @@ func (vc *FuncVC) storeFlat(st *State, lv *LV, v *FV) {
 		default:
 			panic("storeFlat: bad location kind")
 		}
+	}
+}
+
+func (vc *FuncVC) noteKeyType(lv *LV, t types.Type) {
+	if len(vc.enc.Leaves(t)) != 1 {
+		return
+	}
+	var key string
+	switch lv.Kind {
+	case LField:
+		key = "H|" + lv.Key + "|v"
+	case LElem:
+		key = "M|" + lv.Key + "|v"
+	case LCell:
+		key = "C|" + lv.Key + "|v"
+	case LGlobal:
+		key = "G|" + lv.Key + "|v"
+	}
+	if vc.keyGoType == nil {
+		vc.keyGoType = map[string]types.Type{}
+	}
+	if _, ok := vc.keyGoType[key]; !ok {
+		vc.keyGoType[key] = t
 	}
 }
 
@@ -338,6 +452,28 @@ func (vc *FuncVC) ptrAllocated(v Val, st *State) Term {
 		}
 	}
 	return tTrue
+}
+
+// globalFacts: package-level error variables that are initialised once with
+// errors.New / fmt.Errorf and never reassigned are non-nil and pairwise distinct.
+func (vc *FuncVC) globalFacts(name string, t types.Type) {
+	if vc.globalDone == nil {
+		vc.globalDone = map[string]bool{}
+	}
+	if vc.globalDone[name] {
+		return
+	}
+	vc.globalDone[name] = true
+	if _, isIface := t.Underlying().(*types.Interface); !isIface {
+		return
+	}
+	id, ok := vc.prog.errGlobals[name]
+	if !ok || !vc.prog.immutable[name] {
+		return
+	}
+	typ := vc.entry["G|"+name+"|typ"]
+	val := vc.heapGet(vc.entryState, "G|"+name+"|val", SInt)
+	vc.sc.AssumeP(mkAnd(mkEq(typ, intLit64(1000000)), mkEq(val, intLit64(int64(1000000+id)))), "package-level error value "+name+" is non-nil and distinct from the others")
 }
 
 // globalRef is the fixed object reference of a package-level aggregate.
@@ -495,6 +631,10 @@ func (vc *FuncVC) assumeZeroObj(st *State, ref Term, t types.Type) {
 
 func (vc *FuncVC) newRef(st *State, hint string) Term {
 	r := vc.sc.Def(hint, st.Alloc)
+	if vc.freshRefs == nil {
+		vc.freshRefs = map[string]bool{}
+	}
+	vc.freshRefs[r.S] = true
 	st.Alloc = vc.sc.Def("alloc", app(SInt, "+", st.Alloc, intLit64(1)))
 	vc.sc.Assume(mkAnd(mkEq(app(SInt, "reftag", r), intLit64(0)), mkEq(app(SInt, "refroot", r), r)), "fresh refs are untagged roots")
 	return r
@@ -516,6 +656,18 @@ func (fr *Frame) oblige(kind string, reach Term, cond Term, desc string) {
 		src = fmt.Sprintf("%s:%d", shortPath(p.Filename), p.Line)
 	}
 	vc.obls = append(vc.obls, &Obligation{Name: name, Kind: kind, Func: vc.funcName(), Pos: vc.sc.Pos(), Goal: goal, Script: vc.sc, Src: src, Desc: desc, VC: vc})
+}
+
+// obligeParts emits one obligation per conjunct of the clause.
+func (fr *Frame) obligeParts(name, kind string, reach Term, env *SpecEnv, c Clause) {
+	parts := env.BoolParts(c.Expr)
+	if len(parts) == 1 {
+		fr.obligeNamed(name, kind, reach, parts[0], c.Src, c.Line)
+		return
+	}
+	for i, p := range parts {
+		fr.obligeNamed(fmt.Sprintf("%s.%d", name, i+1), kind, reach, p, fmt.Sprintf("conjunct %d of: %s", i+1, c.Src), c.Line)
+	}
 }
 
 func (fr *Frame) obligeNamed(name, kind string, reach Term, cond Term, desc string, line int) {
